@@ -489,7 +489,15 @@ def random_answer(rng, n, mc, malformed):
         i += k
     if rng.random() < 0.2:
         units.append([None, None])
-    return {"units": units, "graph": random_graph(rng), "is_2d": rng.random() < 0.5,
+    # substitutional defects recorded on the units (atoms of the structure that are NOT basis atoms of the region): they
+    # are outliers and do not count towards the coverage; their number is chosen so that basis + substitutions often
+    # crosses min_coverage when the basis alone does not
+    subs = [[] for _ in units]
+    rest = [i for i in idx if i not in set(c for c in chosen if c is not None and c < n)]
+    if units and rest and rng.random() < 0.5:
+        for i in rng.sample(rest, rng.randint(1, min(len(rest), 4))):
+            subs[rng.randrange(len(units))].append(i)
+    return {"units": units, "subs": subs, "graph": random_graph(rng), "is_2d": rng.random() < 0.5,
             "cell": not (malformed and rng.random() < 0.4)}
 
 
@@ -725,8 +733,13 @@ def evaluate(ctx, name, cases, dist):
     {case, row, clauses (predicate), agree (bool|None), in_family}"""
     for i, c in enumerate(cases):
         c["id"] = i
+        # history stream (no PRNG draw): every third case is classified by a Classifier object that classified ANOTHER
+        # structure first (a cell-less molecule, a slab with an adsorbate, a sparse gas: very different shortest distances)
+        if i % 3 == 0 and "prior" not in c:
+            c["prior"] = PRIORS[(i // 3) % len(PRIORS)]
     rows, ext = run_impl(cases)
     dist.setdefault("ext_module", ext)
+    dist["cases_with_prior_structure_on_the_same_classifier"] = dist.get("cases_with_prior_structure_on_the_same_classifier", 0) + sum(1 for c in cases if c.get("prior"))
     terms = []
     info = {}
     for c in cases:
@@ -844,7 +857,27 @@ def shrink(case, budget_s=60):
 
 
 def slim(case):
-    return {k: case[k] for k in ("numbers", "positions", "cell", "pbc", "cfg", "script", "family", "tags", "extra_arrays", "stream") if k in case}
+    return {k: case[k] for k in ("numbers", "positions", "cell", "pbc", "cfg", "script", "family", "tags", "extra_arrays", "stream", "prior") if k in case}
+
+
+def _priors():
+    """structures a Classifier object may have seen before the examined one"""
+    h2o = {"numbers": [8, 1, 1], "positions": [[0, 0, 0.119], [0, 0.763, -0.477], [0, -0.763, -0.477]], "cell": [[0, 0, 0]] * 3, "pbc": [False] * 3}
+    a = 3.61
+    cu = []
+    for i in range(3):
+        for j in range(3):
+            for k in range(3):
+                off = 0.5 * a / 2 ** 0.5 * (k % 2)
+                cu.append([i * a / 2 ** 0.5 + off, j * a / 2 ** 0.5 + off, 6.0 + k * a / 2])
+    L = 3 * a / 2 ** 0.5
+    slab = {"numbers": [29] * 27 + [6, 8], "positions": cu + [[L / 2, L / 2, 6.0 + a + 1.85], [L / 2, L / 2, 6.0 + a + 3.0]],
+            "cell": [[L, 0, 0], [0, L, 0], [0, 0, 22.0]], "pbc": [True, True, True]}
+    gas = {"numbers": [18, 18, 18], "positions": [[1, 1, 1], [7, 8, 9], [13, 3, 15]], "cell": [[20, 0, 0], [0, 20, 0], [0, 0, 20]], "pbc": [True, True, True]}
+    return [h2o, slab, gas]
+
+
+PRIORS = _priors()
 
 
 def finding_key(clauses):
